@@ -6,11 +6,13 @@ Inductive c20case :=
 (* one redirect-following call through a real Client over a fake network.
    maxr = None: the Get/GetTimeout/Post entry points (defaultMaxRedirectsCount).
    Request state at the call: method, disableNormalizing, generic headers as VisitAll shows them, contentType set,
-   contentLength, contentLengthBytes set, body length, body stream (size -1) length.
+   contentLength, contentLengthBytes set, and every body source: body buffer length, body stream (size -1) length,
+   bodyRaw length, marshalled multipart form length, post args length, parsedPostArgs.
    chain: the answers of the scripted servers with the URI-layer oracle values.
    ihops / ires: what the hosts received and the error class returned (0 nil, 1 ErrTooManyRedirects, 2 ErrMissingLocation, 3 other). *)
 | CRun (maxr : option Z) (url0 host0 : bytes) (ok0 : bool) (uinfo0 : option bytes)
        (meth : bytes) (dn : bool) (hdrs : list (bytes * bytes)) (ct : bool) (cl : Z) (clb : bool) (body : Z) (stream : option Z)
+       (raw mpart : option Z) (pargs : Z) (parsed : bool)
        (chain : list answer) (ihops : list ohop) (ires : N)
 | CIsSub (sub parent : bytes) (impl : bool)                 (* isDomainOrSubdomainBytes *)
 | CHostURL (url : bytes) (impl : bytes)                     (* hostnameFromURLString *)
@@ -53,8 +55,8 @@ Definition init_agree (url0 host0 : bytes) : bool :=
 
 Definition corr_ok (c : c20case) : bool :=
   match c with
-  | CRun maxr url0 host0 ok0 uinfo0 meth dn hdrs ct cl clb body stream chain ihops ires =>
-      let r0 := mkReq meth hdrs dn ct cl clb body stream in
+  | CRun maxr url0 host0 ok0 uinfo0 meth dn hdrs ct cl clb body stream raw mpart pargs parsed chain ihops ires =>
+      let r0 := mkReq meth hdrs dn ct cl clb body stream raw mpart pargs parsed in
       let (mh, mr) := run (maxr_of maxr) url0 host0 ok0 uinfo0 r0 chain in
       hops_match mh ihops && (res_code mr =? ires) && (negb ok0 || init_agree url0 host0)
   | CIsSub sub parent impl => Bool.eqb (isDomainOrSubdomainBytes sub parent) impl
@@ -73,7 +75,7 @@ Definition caller_creds (hdrs : list (bytes * bytes)) (uinfo0 : option bytes) : 
 (* the property, judged on what the hosts received *)
 Definition prop_ok (c : c20case) : bool :=
   match c with
-  | CRun maxr url0 host0 ok0 uinfo0 meth dn hdrs ct cl clb body stream chain ihops ires =>
+  | CRun maxr url0 host0 ok0 uinfo0 meth dn hdrs ct cl clb body stream raw mpart pargs parsed chain ihops ires =>
       match ihops with
       | [] => true
       | first :: _ =>
